@@ -16,6 +16,27 @@ from props import xport as X
 BARE = "/venv/bin/python -S -E"
 
 
+def other_interpreters():
+    """python3.X executables on this machine whose version differs from the one running the check"""
+    import glob
+    import subprocess
+    import sys
+
+    seen, out = {sys.version_info[:2]}, []
+    for pth in sorted(glob.glob("/usr/bin/python3.[0-9]*") + glob.glob("/usr/local/bin/python3.[0-9]*")):
+        if pth.endswith("-config"):
+            continue
+        try:
+            v = subprocess.run([pth, "-S", "-E", "-c", "import sys; print(sys.version_info[0], sys.version_info[1])"], capture_output=True, text=True, timeout=20).stdout.split()
+            v = (int(v[0]), int(v[1]))
+        except Exception:  # noqa
+            continue
+        if v not in seen and v >= (3, 8):
+            seen.add(v)
+            out.append(pth)
+    return out
+
+
 def main(tier, seed, replay=None):
     import execnet
 
@@ -54,6 +75,11 @@ def main(tier, seed, replay=None):
                         ck.fail("standalone-socketserver-does-not-start-without-execnet", {"banner": srv.banner.decode("utf-8", "replace")[-400:], "python": BARE})
                     else:
                         configs.append(("socket-standalone", lambda: group.makegateway("socket=127.0.0.1:%d//id=sock//execmodel=%s" % (srv.port, em)), False))
+                    if em == "thread":
+                        # every other interpreter version installed here, bare: the shipped source may not need anything that
+                        # only SOME versions of the standard library have
+                        for interp in other_interpreters():
+                            configs.append(("python=%s" % os.path.basename(interp), lambda interp=interp: group.makegateway("popen//id=o%s//python=%s -S -E//execmodel=%s" % (os.path.basename(interp).replace(".", "_"), interp, em)), False))
                     configs.append(("socket-installvia", lambda: group.makegateway("socket//id=sockvia//installvia=master//execmodel=%s" % em), None))
                     for name, mk, importable in configs:
                         ex = {"config": name, "execmodel": em, "program_seed": ps}
